@@ -41,9 +41,10 @@ func VerifC14Lock() {
 	// the engine under the lock: the contract store (both conflict-reporting styles), or the real
 	// adapter code of the in-memory engine, Badger and TiKV (over the models of their libraries)
 	var s storage.KvStorage
+	var cs *zzmodel.Store
 	switch zzverif.Choose("engine", zzverif.Param("engines", 1)) {
 	case 0:
-		cs := zzmodel.NewStore()
+		cs = zzmodel.NewStore()
 		cs.BareCASError = zzverif.Bool("bareCAS")
 		s = cs
 	case 1:
@@ -67,13 +68,41 @@ func VerifC14Lock() {
 		locks[i] = vNewLock(s, ids[i])
 	}
 	key := getElectionKey("/r")
+	// lockfaults=1: one commit of the run is answered "outcome unknown" (applied, or lost)
+	faulted, nfault := false, 0
+	if cs != nil && zzverif.Param("lockfaults", 0) == 1 {
+		cs.FaultAt = func(kind string, n int) zzmodel.Fault {
+			if kind != "commit" || nfault > 0 {
+				return zzmodel.FaultNone
+			}
+			switch zzverif.Choose("lockfault", 3) {
+			case 1:
+				nfault, faulted = 1, true
+				zzverif.Cover("commit-unknown-lost")
+				return zzmodel.FaultUnknownLost
+			case 2:
+				nfault, faulted = 1, true
+				zzverif.Cover("commit-unknown-applied")
+				return zzmodel.FaultUnknownApplied
+			}
+			return zzmodel.FaultNone
+		}
+	}
+	// stored reports whether the stored record is the one the candidate handed in
+	stored := func(rec resourcelock.LeaderElectionRecord) bool {
+		raw, ok := vRawGet(s, key)
+		var got resourcelock.LeaderElectionRecord
+		return ok && json.Unmarshal(raw, &got) == nil && got.HolderIdentity == rec.HolderIdentity &&
+			got.LeaderTransitions == rec.LeaderTransitions && got.LeaseDurationSeconds == rec.LeaseDurationSeconds
+	}
 	steps := zzverif.Param("steps", 4)
 	for k := 0; k < steps; k++ {
 		tag := "step" + string(rune('0'+k))
 		c := zzverif.Choose(tag+".who", n)
 		l := locks[c]
 		before, present := vRawGet(s, key)
-		rec := resourcelock.LeaderElectionRecord{HolderIdentity: ids[c], LeaseDurationSeconds: 8, LeaderTransitions: zzverif.Int(tag + ".transitions")}
+		rec := resourcelock.LeaderElectionRecord{HolderIdentity: ids[c], LeaseDurationSeconds: 8 + k, LeaderTransitions: zzverif.Int(tag + ".transitions")}
+		faulted = false
 		switch zzverif.Choose(tag+".what", 3) {
 		case 0:
 			got, err := l.Get()
@@ -86,6 +115,12 @@ func VerifC14Lock() {
 			}
 		case 1:
 			err := l.Create(rec)
+			if err == nil {
+				zzverif.Assert(stored(rec), "a create reported as success stored the candidate's record")
+			}
+			if faulted {
+				break // outcome unknown: an error is the expected answer, nothing else is asserted
+			}
 			if err == nil {
 				zzverif.Assert(!present, "create succeeds only when no record exists")
 				now, _ := vRawGet(s, key)
@@ -100,6 +135,12 @@ func VerifC14Lock() {
 		default:
 			err := l.Update(rec)
 			after, still := vRawGet(s, key)
+			if err == nil {
+				zzverif.Assert(stored(rec), "an acquire-or-renew reported as success stored the candidate's record")
+			}
+			if faulted {
+				break
+			}
 			if err == nil {
 				zzverif.Assert(present && lastRead[c] != nil, "update succeeds only on a record the candidate has observed")
 				zzverif.Assert(zzverif.BytesEq(before, lastRead[c]), "update succeeds only if the stored record is exactly what the candidate last read")
